@@ -15,6 +15,9 @@ from gen import H, O
 from vlib import run_driver_parallel, coq_eval, warm_config, trace_to_coq, unhex, cb
 import fsmodel as F
 
+# the case files of this check import the monitors: keep them compiled against the current generated constants
+COQ_TARGETS = ("theories/Replay.vo", "theories/Discipline.vo", "theories/FdBalance.vo", "proofs/MonitorProofs.vo")
+
 RES = 16 | 2
 
 
@@ -110,17 +113,38 @@ def gen_jobs(rng, ntrees, per):
                     d2 = rng.choice(realdirs)
                     op["dst"] = H(((d2 + "/") if d2 else "") + rng.choice(["moved", "m2"]))
                     p = base + leaf2
-            jid += 1
-            jobs.append({"id": jid, "tree": tree, "op": op, "snap": "all", "meta": {"path": p}})
-            # the kernel's resolution of each parent
-            for key in ("path", "src", "dst", "target"):
-                if key in op and (key != "target" or op.get("type") == "hardlink"):
-                    par, _name = split(unhex(op[key]))
-                    jid += 1
-                    jobs.append({"id": jid, "tree": tree, "op": {"k": "raw_openat2", "path": par.hex(), "flags": O["PATH"], "resolve": RES},
-                                 "meta": {}})
-                    op.setdefault("_oracles", {})[key] = jid
+            jid = add_with_oracles(jobs, jid, tree, op, p)
+    # two-parent operations, always: source and destination (link and target) in DIFFERENT directories, reached directly, through a
+    # link and through '..'; every rename flag; destination absent / present.  Which descriptor goes with which name matters here.
+    t2 = [["dir", H("root"), 0o755], ["dir", H("outside"), 0o755], ["dir", H("root/src"), 0o755], ["dir", H("root/dst"), 0o755],
+          ["dir", H("root/dst/sub"), 0o755], ["file", H("root/src/x"), H("SRC-X"), 0o644], ["file", H("root/dst/x"), H("DST-X"), 0o644],
+          ["file", H("root/src/keep"), H("SRC-KEEP"), 0o644], ["file", H("root/dst/other"), H("DST-OTHER"), 0o644],
+          ["file", H("root/dst/sub/x"), H("SUB-X"), 0o644], ["dir", H("root/src/d"), 0o755], ["dir", H("root/dst/dd"), 0o755],
+          ["symlink", H("root/via"), H("dst/sub")], ["symlink", H("root/vs"), H("src")]]
+    fixed = []
+    for fl in (0, 1, 2):
+        for src, dst in (("src/x", "dst/y"), ("src/keep", "dst/kept"), ("src/x", "dst/other"), ("/src/../src/x", "via/y"), ("vs/x", "dst/sub/../x"),
+                         ("src/d", "dst/dd"), ("src/d", "dst/newd"), ("dst/sub/x", "src/x")):
+            fixed.append({"k": "rename", "src": H(src), "dst": H(dst), "flags": fl})
+    for path, target in (("dst/hl", "src/x"), ("via/hl2", "vs/keep"), ("src/hl3", "dst/sub/x"), ("dst/hl4", "src/../src/x")):
+        fixed.append({"k": "create", "path": H(path), "type": "hardlink", "target": H(target)})
+    for op in fixed:
+        jid = add_with_oracles(jobs, jid, t2, op, unhex(op.get("src", op.get("path"))).decode())
     return jobs
+
+
+def add_with_oracles(jobs, jid, tree, op, p):
+    jid += 1
+    jobs.append({"id": jid, "tree": tree, "op": op, "snap": "all", "meta": {"path": p}})
+    # the kernel's resolution of each parent
+    for key in ("path", "src", "dst", "target"):
+        if key in op and (key != "target" or op.get("type") == "hardlink"):
+            par, _name = split(unhex(op[key]))
+            jid += 1
+            jobs.append({"id": jid, "tree": tree, "op": {"k": "raw_openat2", "path": par.hex(), "flags": O["PATH"], "resolve": RES},
+                         "meta": {}})
+            op.setdefault("_oracles", {})[key] = jid
+    return jid
 
 
 def canon_path(res, tree):
@@ -134,6 +158,52 @@ def canon_path(res, tree):
         if ident and (ident[0], ident[1]) == (r["ok"]["dev"], r["ok"]["ino"]):
             return ("ok", unhex(hp), r["ok"]["mode"] & 0o170000)
     return ("ok", None, r["ok"]["mode"] & 0o170000)
+
+
+def should_succeed(op, expect, before):
+    """Conservative: True only when the *at call named by the operation clearly succeeds on the tree as it was (the check runs
+    as root, so permissions do not matter): plain final names, parents the kernel resolves, source present / destination absent."""
+    def plainname(key):
+        _p, nm = split(unhex(op[key]))
+        return nm is not None and nm not in (b".", b"..") and b"/" not in nm and nm != b""
+
+    def isdir(p_):
+        return (before[p_][1] & 0o170000) == 0o040000
+
+    def under(a, b_):
+        return a == b_ or a.startswith(b_ + b"/")
+    k = op["k"]
+    if k == "rename":
+        if not (plainname("src") and plainname("dst")):
+            return False
+        s_, d_ = expect("src"), expect("dst")
+        if s_ is None or d_ is None or s_ not in before or under(d_, s_) or under(s_, d_):
+            return False
+        fl = op.get("flags", 0)
+        if fl in (0, 1):
+            return d_ not in before
+        if fl == 2:
+            return d_ in before
+        return False
+    if not plainname("path"):
+        return False
+    e = expect("path")
+    if e is None:
+        return False
+    if k == "create":
+        if e in before:
+            return False
+        if op["type"] == "hardlink":
+            if not plainname("target"):
+                return False
+            t_ = expect("target")
+            return t_ is not None and t_ in before and not isdir(t_) and (before[t_][1] & 0o170000) != 0o120000
+        return op["type"] in ("file", "dir", "fifo", "symlink", "chr", "blk")
+    if k == "remove_file":
+        return e in before and not isdir(e)
+    if k == "remove_dir":
+        return e in before and isdir(e) and not any(p_.startswith(e + b"/") for p_ in before)
+    return False
 
 
 def run(ck):
@@ -183,16 +253,10 @@ def run(ck):
                 if ok or added or removed or changed:
                     ck.violation("C14: a path without a final name (trailing slash / empty) was not refused without effect", desc)
                 continue
-            if not ok:
-                stats["refused_no_change"] += 1
-                if added or removed or changed:
-                    ck.violation("C14: the operation failed but the tree changed", desc)
-                continue
-            # success: where did the kernel resolve the parents?
+            # where did the kernel resolve the parents?
             orc = {}
             for key, oid in op.get("_oracles", {}).items():
                 orc[key] = canon_path(results.get(oid, {}), job["tree"]) if oid in results else None
-            stats["effects"] += 1
 
             def expect(key):
                 o = orc.get(key)
@@ -200,6 +264,15 @@ def run(ck):
                 if not o or o[0] != "ok" or o[1] is None or nm is None:
                     return None
                 return o[1] + b"/" + nm
+            if not ok:
+                stats["refused_no_change"] += 1
+                if added or removed or changed:
+                    ck.violation("C14: the operation failed but the tree changed", desc)
+                elif all(len(orc.get(k_) or ()) == 3 and orc[k_][2] == 0o040000 for k_ in op.get("_oracles", {})) and should_succeed(op, expect, before):
+                    ck.violation("C14: the operation failed although the corresponding *at call on (kernel-resolved parent, final name) "
+                                 "succeeds on this tree", dict(desc, parents={k_: str(v_) for k_, v_ in orc.items()}))
+                continue
+            stats["effects"] += 1
             e_main = expect(mainkey)
             if e_main is None:
                 o_ = orc.get(mainkey)
